@@ -35,6 +35,7 @@ structure Req where
   prev : Option Nat := none       -- req.prev: the next newer request with the same tag
   wpc : WPC := .queued
   noRun : Bool := false           -- ghost: a Tflush marked it flushed before it started
+  looked : Option Nat := none     -- ghost: the request this Tflush found when it looked up its old tag
   deriving Repr
 
 /-- program counter of one call of `req.Respond()` -/
@@ -154,7 +155,7 @@ def LS.step (s : LS) : Ev → Option LS
           -- f.flushreq = t.flushreq; t.flushreq = f
           let req1 := upd s.req f { q with flushreq := (s.req t).flushreq }
           let req2 := upd req1 t { req1 t with flushreq := some f }
-          some { s with req := upd req2 f { req2 f with wpc := .fl1 (some t) } }
+          some { s with req := upd req2 f { req2 f with wpc := .fl1 (some t), looked := some t } }
     else none
   | .flushMark f =>
     if f < s.n then
@@ -252,6 +253,35 @@ def LS.step (s : LS) : Ev → Option LS
     | [] => none
     | r :: rest => if s.closed then none else some { s with reqout := rest, wire := s.wire ++ [r] }
   | .close => if s.closed then none else some { s with closed := true }
+
+/-- Schedules of an ordinary client's session, for the ordering theorems: no Tflush is aimed at
+    another Tflush, a request that leaves the table with flushes waiting on it has no successor
+    under its tag (the flushes are not handed over), and the request started by `next` was
+    waiting in the queue of its tag. -/
+def LS.tame (s : LS) : Ev → Bool
+  | .flushLookup f =>
+    match (s.req f).oldtag with
+    | none => true
+    | some ot =>
+      match (s.chain ot).head? with
+      | none => true
+      | some t => (s.req t).oldtag == none
+  | .unlink i =>
+    match s.insts[i]? with
+    | some it => (s.req it.rid).prev == none || (s.req it.rid).flushreq == none
+    | none => true
+  | .next i =>
+    match s.insts[i]? with
+    | some it =>
+      match it.nxt with
+      | some m => (s.req m).wpc == .queued
+      | none => true
+    | none => true
+  | _ => true
+
+def LS.runT (s : LS) : List Ev → Option LS
+  | [] => some s
+  | e :: es => if s.tame e then (s.step e).bind (fun s' => s'.runT es) else none
 
 def LS.run (s : LS) : List Ev → Option LS
   | [] => some s
